@@ -10,7 +10,8 @@ Require Import Bits.Spec.Merkle Bits.Spec.Subsidy Bits.Spec.ScriptNum Bits.Spec.
 Require Import Bits.Model.CompactSize Bits.Model.Witness Bits.Model.Tx.
 Require Import Bits.Model.Merkle Bits.Model.Coinbase Bits.Model.Block.
 Require Import Bits.Proofs.Merkle Bits.Proofs.ScriptNum Bits.Proofs.Coinbase Bits.Proofs.Block Bits.Proofs.BlockTx.
-Require Import Bits.Proofs.Tx.
+Require Import Bits.Proofs.Tx Bits.Proofs.CoinbaseTx.
+Require Import Bits.Model.MineBlock Bits.Proofs.MineBlock.
 Import ListNotations.
 Import Coq.Init.Byte.
 Local Open Scope Z_scope.
@@ -101,7 +102,7 @@ Theorem C15_coinbase_shape : forall cs spk reward height regtest wroot t,
   coinbase_tx cs spk reward height regtest wroot = Ok t ->
   exists script value commit,
     prepend_height cs height = Ok script /\ (length script <= 100)%nat /\
-    claimed reward height regtest = Some value /\ 0 <= value < 2 ^ 64 /\
+    claimed reward height regtest = Some value /\ 0 <= value < 2 ^ 64 /\ zlen spk < 2 ^ 64 /\
     (forall h, height = Some h -> 0 <= h /\ value <= subsidy h (interval_of regtest)) /\
     commit_spk wroot = Ok commit /\
     t = coinbase_expected script value spk commit.
@@ -158,6 +159,29 @@ Theorem C15_commitment_bip141 : forall (sha256 : bytes -> bytes) wtxids,
 Proof. exact mine_block_commitment_is_bip141. Qed.
 Print Assumptions C15_commitment_bip141.
 
+(* mine_block's assembly, end to end, for well-formed mempool transactions [ts] (serialised as [raws], ids
+   [ids] = (txid, wtxid) per transaction) and any hash with 32-byte output: the coinbase starts with the BIP34 push
+   of the new height, claims exactly the subsidy, carries the BIP141 commitment
+   6a24aa21a9ed ++ hash256(witness root ++ reserved) iff some transaction has txid <> wtxid, and the merkle root
+   put into the header is Bitcoin's merkle root of [coinbase txid] ++ txids *)
+Theorem C15_mine_block_assembly : forall (sha256 : bytes -> bytes), (forall m, length (sha256 m) = 32%nat) ->
+  forall spk h rt ts raws ids,
+  0 <= h + 1 < 2 ^ 31 -> zlen spk < 2 ^ 64 ->
+  Forall wf_tx ts -> mapM tx_ser ts = Ok raws -> mapM (tx_ids sha256) ts = Ok ids ->
+  let must_commit := existsb (fun i => negb (bytes_eqb (fst i) (snd i))) ids in
+  let commit := if must_commit
+                then Some (commitment_script
+                             (commitment_hash sha256 (witness_root sha256 (map snd ids)) witness_reserved_value))
+                else None in
+  let script := push_int (h + 1) ++ [x62; x69; x74; x73] in
+  let value := subsidy (h + 1) (interval_of rt) in
+  exists cb_txid cb_wtxid,
+    tx_ids sha256 (coinbase_struct script value spk commit) = Ok (cb_txid, cb_wtxid) /\
+    mine_block_assemble sha256 spk h rt raws
+    = Ok (coinbase_expected script value spk commit, Spec.Merkle.merkle sha256 (cb_txid :: map fst ids)).
+Proof. exact mine_block_assemble_spec. Qed.
+Print Assumptions C15_mine_block_assembly.
+
 (* ------------------------------------------------------------------------------------------------ *)
 (* header and block round trip                                                                      *)
 (* ------------------------------------------------------------------------------------------------ *)
@@ -205,9 +229,41 @@ Theorem C15_block_deser_no_fuel : forall (T : Type) (tx_deser : bytes -> result 
 Proof. exact block_deser_no_fuel. Qed.
 Print Assumptions C15_block_deser_no_fuel.
 
+(* ... instantiated with the transaction parser of Model/Tx.v (Proofs/TxTotal.v): no hypothesis left *)
+Theorem C15_block_deser_tx_no_fuel : forall (sha256 : bytes -> bytes) block,
+  block_deser tx_parsed (tx_deser sha256) block <> Err FuelE.
+Proof. exact block_deser_tx_no_fuel. Qed.
+Print Assumptions C15_block_deser_tx_no_fuel.
+
+(* the coinbase through the library's own parser: exactly one input, null outpoint, the script, sequence
+   ffffffff; payout output (+ commitment output and reserved-value witness iff supplied); raw = the coinbase *)
+Theorem C15_coinbase_parses : forall (sha256 : bytes -> bytes) cs spk reward height regtest wroot t,
+  coinbase_tx cs spk reward height regtest wroot = Ok t ->
+  exists script value commit,
+    prepend_height cs height = Ok script /\ claimed reward height regtest = Some value /\
+    commit_spk wroot = Ok commit /\
+    forall rest, exists txid_,
+      tx_deser sha256 (t ++ rest)
+      = Ok (mk_parsed txid_ (Model.Tx.hash256 sha256 t) t
+              (mk_tx 1 [mk_txin null_txid 4294967295 script [xff; xff; xff; xff]]
+                     (mk_txout value spk :: match commit with Some c => [mk_txout 0 c] | None => [] end)
+                     (match commit with Some _ => Some [[witness_reserved_value]] | None => None end) 0), rest).
+Proof. exact coinbase_tx_parses. Qed.
+Print Assumptions C15_coinbase_parses.
+
+(* the program that is extracted for the correspondence run (it avoids building 2**halvings) is the same function *)
+Theorem C15_extracted_coinbase_tx_is_model : forall cs spk reward height regtest wroot,
+  coinbase_tx_fast cs spk reward height regtest wroot = coinbase_tx cs spk reward height regtest wroot.
+Proof. exact coinbase_tx_fast_eq. Qed.
+Print Assumptions C15_extracted_coinbase_tx_is_model.
+
 (* ------------------------------------------------------------------------------------------------ *)
 (* concrete instances (hypotheses are satisfiable; vectors)                                         *)
 (* ------------------------------------------------------------------------------------------------ *)
+(* the length hypothesis on the hash is satisfiable *)
+Example C15_ex_hash_len : forall m : bytes, length ((fun _ : bytes => repeat x00 32) m) = 32%nat.
+Proof. reflexivity. Qed.
+
 (* a toy "hash" to evaluate shapes inside Coq: keeps the first 4 bytes *)
 Definition toy (m : bytes) : bytes := firstn 4 m.
 
